@@ -115,6 +115,7 @@ func (f *frame) beforeCall(key string, args []Val, st *State, pos token.Pos) {
 	f.bindParams(env)
 	env.lookup = f.localsAt(f.curBlock)
 	env.sset = f.sset
+	env.frame = f
 	for i, a := range args {
 		env.vars[fmt.Sprintf("$%d", i)] = a
 	}
@@ -410,6 +411,7 @@ func (f *frame) applyContract(con *Contract, key string, args []Val, rt *types.T
 	}
 	pre := st.heap.clone()
 	env := g.contractEnv(con, args, st.heap, pre)
+	env.frame = f
 	if ci != nil {
 		for i, fv := range ci.fn.FreeVars {
 			if i < len(ci.bindings) {
